@@ -453,7 +453,7 @@ func TestC05(t *testing.T) {
 		ID:   "C05",
 		Rule: "70% tables of generated grammars (C01/C04 generators: family seeds incl. ambiguous expression shapes, random grammars, 60% with %left/%right/%nonassoc and %prec, conflicts allowed, optional minimizeDFA) and 30% synthetic internally consistent DefaultEnc values (2..400 states, 2..60 terminals, lines drawn from shared templates so that identical lines occur), each re-encoded by lalr.Optimize with defaultReduce off/on. For every state x terminal the decoded action and for every state x nonterminal with a goto the decoded target are compared with the default encoding (per table exhaustive). Non-trivial: packing interleaved two lines (overlapping spans in Table) or deduplicated a line (two rows share a base); distinct by case JSON.",
 		Assume: []string{"tables with LALR(k) deep-lookahead entries are outside lalr.Optimize's domain and are not generated here", "with defaultReduce a plain error may decode to any of the state's most frequent reductions (ties allowed)"},
-		Quick: 30000, Thorough: 300000,
+		Quick: 30000, Thorough: 1500000,
 		Gen:   c05Gen,
 		Check: c05Check,
 	}
